@@ -36,11 +36,17 @@ class Unsupported(EngineSignal):
     """An operation the proxies do not model: the path is inconclusive."""
 
 
+class Outside(EngineSignal):
+    """The path leaves the class of behaviours the property talks about (e.g. the original program does
+    not terminate within the fuel): counted, not a verdict."""
+
+
 class Result:
     def __init__(self):
         self.status = "confirmed"
         self.paths = 0
         self.aborted_paths = 0
+        self.outside_paths = 0
         self.branches = 0
         self.checks = 0
         self.solver_s = 0.0
@@ -57,6 +63,7 @@ class Result:
             "status": self.status,
             "paths": self.paths,
             "aborted_paths": self.aborted_paths,
+            "outside_paths": self.outside_paths,
             "branches": self.branches,
             "checks": self.checks,
             "solver_s": round(self.solver_s, 4),
@@ -261,6 +268,8 @@ class Engine:
                     self.claim(out)
             except Abort:
                 res.aborted_paths += 1
+            except Outside:
+                res.outside_paths += 1
             except PathCut as e:
                 res.inconclusive.append("cut: %s" % (e,))
             except Unsupported as e:
